@@ -183,30 +183,40 @@ Record tx_case := mk_tx {
   t_signers : list bytes;                 (* add_required_signer calls *)
   t_mint : option (list mint_op);         (* MintBuilder history, if a mint builder is set *)
   t_native : list bytes;                  (* native scripts as the builder combines them (inputs, collateral, mint ...) *)
+  t_plutus : list pscript;                (* scripts of the Plutus witnesses (inputs, collateral, mint, certificates, withdrawals ...), witness-script sources only *)
+  t_wit_datums : list datum;              (* datums carried by those Plutus witnesses, in the builder's combination order *)
   t_extra_datums : list datum }.          (* add_extra_witness_datum calls *)
 
 Definition tin_set (l : list txin) : list txin := map fst (fold_left tset_add l []).   (* BTreeMap keys: sorted, unique *)
 Record tx_obs := mk_txo {
   x_inputs : list txin; x_collateral : list txin; x_refs : list txin; x_signers : list bytes;
-  x_mint : option bytes; x_native : list bytes; x_data : list bytes }.
+  x_mint : option bytes; x_native : list bytes; x_plutus : list (N * list bytes); x_data : list bytes }.
 Definition tx_build (c : tx_case) : result tx_obs :=
   let* mint := match t_mint c with
                | Some h => let* b := mint_case h in Ok (Some b)
                | None => Ok None
                end in
-  (* build_tx_unsafe -> get_witness_set: the combined native scripts and the extra datums go through the typed setters
-     (new_with_partial_dedup is only used for the fake transaction that sizes the fee) *)
-  let w := ws_run [SetNative (t_native c); SetData (mk_plist (t_extra_datums c) None)] in
+  (* build_tx_unsafe -> get_witness_set (tx_builder.rs:2523-2553): the combined native scripts go through set_native_scripts;
+     PlutusWitnesses::collect (plutus_witnesses.rs:25-57) keeps the first occurrence of every script and of every witness datum
+     (BTreeSet on the derived Ord), the extra datums are appended to that list, and the typed setters
+     set_plutus_scripts / set_plutus_data (de-duplicating) put the result into the witness set.
+     (new_with_partial_dedup is only used for the fake transaction that sizes the fee.) *)
+  let collected_scripts := dedup_clone pscript_eqb (t_plutus c) in
+  let collected_datums := dedup_clone datum_ord_eqb (t_wit_datums c) in
+  let w := ws_run [SetNative (t_native c); SetPlutus collected_scripts;
+                   SetData (mk_plist (collected_datums ++ t_extra_datums c) None)] in
   Ok (mk_txo (tin_set (t_inputs c)) (tin_set (t_collateral c))
              (ref_inputs (t_dedup_flag c) (tin_set (t_inputs c)) (t_script_refs c) (t_explicit_refs c))
              (items (from_vec bytes_eqb (t_signers c)))
              mint
              (match ws_native w with Some l => l | None => [] end)
+             (filter (fun f => (fst f =? 3) || (fst f =? 6) || (fst f =? 7)) (ws_fields w))
              (match ws_data w with Some p => map d_emit (pl_elems p) | None => [] end)).
 
 (* JUDGE for a build: every set-like field is duplicate-free, inputs / collateral / reference inputs hold
    exactly the right elements, required signers keep first-insertion order, scripts and datums are
-   written once, and all repeated builds (same process, other process) gave the same bytes *)
+   written once — every witness / extra datum and every script of the case is in the EMITTED witness set exactly once —
+   and all repeated builds (same process, other process) gave the same bytes *)
 Fixpoint txins_nodupb (l : list txin) : bool :=
   match l with [] => true | x :: r => negb (mem txin_eqb x r) && txins_nodupb r end.
 Definition same_txins (a b : list txin) : bool :=
@@ -221,6 +231,8 @@ Definition judge_tx (c : tx_case) (o : tx_obs) (all_builds_equal : bool) : bool 
   && txins_nodupb (x_collateral o) && same_txins (x_collateral o) (t_collateral c)
   && txins_nodupb (x_refs o) && same_txins (x_refs o) want_refs
   && list_eqb (x_signers o) (first_occ bytes_eqb (t_signers c))
-  && nodupb (x_native o) && nodupb (x_data o)
+  && nodupb (x_native o) && nodupb (x_data o) && judge_fields (x_plutus o)
   && forallb (fun s => mem bytes_eqb s (x_native o)) (t_native c)
-  && forallb (fun d => mem bytes_eqb (d_emit d) (x_data o)) (t_extra_datums c).
+  && forallb (fun d => mem bytes_eqb (d_emit d) (x_data o)) (t_wit_datums c ++ t_extra_datums c)
+  && forallb (fun s => existsb (fun f => (fst f =? match ps_lang s with 1 => 3 | 2 => 6 | _ => 7 end)
+                                         && mem bytes_eqb (enc_bstr (ps_bytes s)) (snd f)) (x_plutus o)) (t_plutus c).
